@@ -745,52 +745,100 @@ def hist_scripts(mans, R, tier):
     return out, q_end
 
 
-def check_hist(case, t):
-    """Every answer of a request sequence on ONE orbit / propagator equals the answer of a fresh one (bit for bit),
-    and the orbit bound to the propagator, the user's orbit and its maneuvers are unchanged afterwards."""
-    from beyond.dates import Date, timedelta
+def mut_lists(R, tier):
+    """Initial maneuver lists for the in-place modification scripts (the empty list included)."""
+    L = hist_lists(R, tier)
+    pick = [[]]
+    for want in (["I"], ["C"], ["I", "C"], ["C", "I"]):
+        for first in (0.0, 300.5):
+            for m in L:
+                if [x["type"] for x in m] == want and m[0]["start"] == first:
+                    pick.append(m)
+                    break
+    return pick if tier == "quick" else pick + [m for m in L if m not in pick][:6]
 
-    R, orient, s, mans, script, q_end = case["R"], case["orient"], case["s"], case["mans"], case["script"], case["q_end"]
-    clause = ("an impulsive maneuver changes the velocity exactly once at its date, whatever was asked before "
-              "(the same request gives the same answer; the bound orbit is not modified by propagation)")
+
+def mut_scripts(mans, R, tier):
+    """Sequences of <= 3 (thorough 4) operations on ONE Orbit object over
+       ('orb', q) Orbit.propagate ; ('iter',) ; ('ephem',)        -- requests through the Orbit (they re-bind it)
+       ('addman', 'append'|'extend'|'assign')  a later impulse is added to orb.maneuvers in place
+       ('setz',)  a coordinate of the orbit is written in place (orb[2] = ...)
+    containing at least one in-place modification followed by a request."""
+    import itertools as _it
+
+    ed = edges(mans) or [0.0]
+    q_add = us(ed[-1] + 300.0)
+    q_end = us(ed[-1] + 777.0)
+    q_mid = us(ed[-1] + 150.0)
+    alpha = [("orb", q_end), ("orb", q_mid), ("iter",), ("addman", "extend"), ("addman", "append"), ("setz",)]
+    if tier != "quick":
+        alpha += [("ephem",), ("addman", "assign")]
+    out = []
+    for k in range(2, (3 if tier == "quick" else 4) + 1):
+        for seq in _it.product(alpha, repeat=k):
+            kinds = [x[0] for x in seq]
+            muts = [i for i, x in enumerate(kinds) if x in ("addman", "setz")]
+            if not muts or not any(x in ("orb", "iter", "ephem") for x in kinds[muts[0] + 1 :]):
+                continue
+            if kinds.count("addman") > 2:
+                continue
+            out.append([list(x) for x in seq])
+    return out, q_end, q_add
+
+
+def check_hist(case, t):
+    """Every answer of an operation sequence on ONE orbit / propagator equals the answer of a fresh orbit holding the
+    CURRENT content (bit for bit); the orbit bound to the propagator, the user's orbit and its maneuvers are not
+    changed by propagation."""
+    from mc.ref import hill
+    from beyond.dates import Date, timedelta
+    from beyond.orbits.man import ImpulsiveMan
+
+    R, orient, script, q_end = case["R"], case["orient"], case["script"], case["q_end"]
+    s_cur = list(case["s"])
+    mans_cur = [dict(m) for m in case["mans"]]
+    q_add = case.get("q_add")
+    clause = ("the propagator answers for the orbit as it is when asked: maneuvers act exactly once at their date whatever "
+              "was asked before, later in-place changes of the orbit (maneuvers added, coordinates written) are honoured, "
+              "and propagation does not modify the orbit")
     sig = "cw.history"
     epoch = Date(*EPOCH)
+    M3 = hill.P3 if orient == "TNW" else np.eye(3)
+    step = us(q_end / 4)
+    cache = {}
 
     def fresh(q):
-        o, _ = lib_orbit(R, orient, s, mans)
-        r = o.propagate(_date(q))
-        t.trans()
-        return np.array(r, dtype=float)
+        key = (tuple(s_cur), len(mans_cur), q)
+        if key not in cache:
+            o, _ = lib_orbit(R, orient, s_cur, mans_cur)
+            r = o.propagate(_date(q))
+            t.trans()
+            cache[key] = np.array(r, dtype=float)
+        return cache[key]
 
-    # fresh answers first (lib_orbit restores the registries, i.e. replaces frames.dynamic['Hill'])
-    step = us(q_end / 4)
-    need = set()
-    for op in script:
-        if op[0] in ("prop", "orb"):
-            need.add(op[1])
-        else:
-            need.update(us(k * step) for k in range(5))
-    try:
-        want = {q: fresh(q) for q in sorted(need)}
-    except Exception as e:
-        t.fail(sig + "/raises", clause, case, "a state", repr(e))
-        return
-    orb, M6 = lib_orbit(R, orient, s, mans)
+    orb, M6 = lib_orbit(R, orient, s_cur, mans_cur)
     prop = orb.propagator
-    orb0 = np.array(orb, dtype=float)
-    man0 = [(type(m).__name__, np.array(m._dv, dtype=float).copy()) for m in orb.maneuvers]
     prop.orbit = orb  # initialise the propagator once
-    bound0 = np.array(prop.orbit, dtype=float)
     bound_obj = prop.orbit
+    bound0 = np.array(prop.orbit, dtype=float)
+    orb0 = np.array(orb, dtype=float)
+
+    def man_snapshot():
+        return [(type(m).__name__, np.array(m._dv, dtype=float).copy()) for m in orb.maneuvers]
+
+    man0 = man_snapshot()
+    mutated = False
 
     def compare(r, q, step_no, what):
         got = np.array(r, dtype=float)
-        if q not in want:
-            raise RuntimeError(f"harness: no fresh answer for {q}")
-        if not np.array_equal(got, want[q]):
-            cls = "epoch-maneuver" if any(m["start"] == 0.0 for m in mans) else "later-maneuvers"
-            t.fail(f"{sig}/answer-depends-on-history/{cls}", clause, case, want[q], got,
-                   f"request #{step_no} {what} at t0+{q}: |diff|={np.max(np.abs(got - want[q])):.3e}")
+        want = fresh(q)
+        if not np.array_equal(got, want):
+            if mutated:
+                cls = "in-place-change-ignored"
+            else:
+                cls = "epoch-maneuver" if any(m["start"] == 0.0 for m in mans_cur) else "later-maneuvers"
+            t.fail(f"{sig}/answer-depends-on-history/{cls}", clause, case, want, got,
+                   f"request #{step_no} {what} at t0+{q}: |diff|={np.max(np.abs(got - want)):.3e}")
             return False
         return True
 
@@ -801,6 +849,7 @@ def check_hist(case, t):
                 if prop.orbit is None or prop.orbit is not bound_obj:
                     prop.orbit = orb
                     bound_obj = prop.orbit
+                    bound0 = np.array(prop.orbit, dtype=float)
                 ok &= compare(prop.propagate(_date(op[1])), op[1], i, "propagator.propagate")
                 t.trans()
             elif op[0] == "orb":
@@ -808,7 +857,7 @@ def check_hist(case, t):
                 t.trans()
                 bound_obj = prop.orbit
                 bound0 = np.array(prop.orbit, dtype=float)
-            else:
+            elif op[0] in ("iter", "ephem"):
                 if op[0] == "iter":
                     pts = list(orb.iter(stop=timedelta(seconds=q_end), step=timedelta(seconds=step)))
                 else:
@@ -821,13 +870,34 @@ def check_hist(case, t):
                 for r in pts:
                     q = us((r.date - epoch).total_seconds())
                     ok &= compare(r, q, i, "Orbit." + op[0])
+            elif op[0] == "addman":
+                nb = sum(1 for m in mans_cur if m.get("added"))
+                vec = [0.0, 0.1 * (nb + 1), -0.05]
+                start = us(q_add + 60.0 * nb)
+                man = ImpulsiveMan(_date(start), M3 @ np.array(vec))
+                if op[1] == "extend":
+                    orb.maneuvers.extend([man])
+                elif op[1] == "append":
+                    orb.maneuvers.append(man)
+                else:
+                    orb.maneuvers = list(orb.maneuvers) + [man]
+                mans_cur.append(dict(type="I", start=start, vec=vec, added=True))
+                man0 = man_snapshot()
+                mutated = True
+            elif op[0] == "setz":
+                s_cur[2] = s_cur[2] + 31.5
+                orb[2] = s_cur[2]  # W axis: third coordinate in both orientations
+                orb0 = np.array(orb, dtype=float)
+                mutated = True
+            else:
+                raise RuntimeError(f"harness: unknown op {op}")
             if not ok:
                 break
     except Exception as e:
         import traceback
 
         tb = traceback.extract_tb(e.__traceback__)
-        if isinstance(e, RuntimeError) and "harness" in str(e) or "/beyond/" not in tb[-1].filename:
+        if (isinstance(e, RuntimeError) and "harness" in str(e)) or "/beyond/" not in tb[-1].filename:
             raise
         t.fail(sig + "/raises", clause, case, "a state", repr(e))
         return
@@ -836,10 +906,10 @@ def check_hist(case, t):
                "the orbit stored in the propagator changed during propagation")
     if not np.array_equal(np.array(orb, dtype=float), orb0):
         t.fail(sig + "/user-orbit-modified", clause, case, orb0, np.array(orb, dtype=float))
-    man1 = [(type(m).__name__, np.array(m._dv, dtype=float)) for m in orb.maneuvers]
+    man1 = man_snapshot()
     if len(man1) != len(man0) or any(a[0] != b[0] or not np.array_equal(a[1], b[1]) for a, b in zip(man0, man1)):
         t.fail(sig + "/maneuvers-modified", clause, case, man0, man1)
-    t.outcome(("hist", len(script), script[0][0]))
+    t.outcome(("hist", len(script), script[0][0], mutated))
 
 
 # ---------------------------------------------------------------------------
@@ -933,6 +1003,12 @@ def run_unit(p, t):
             scripts, q_end = hist_scripts(mans, R, tier)
             for script in scripts:
                 check_case(dict(kind="hist", R=R, orient=orient, s=s0, mans=mans, script=script, q_end=q_end), t)
+        for li, mans in enumerate(mut_lists(R, tier)):
+            if li % p["of"] != p["chunk"]:
+                continue
+            scripts, q_end, q_add = mut_scripts(mans, R, tier)
+            for script in scripts:
+                check_case(dict(kind="hist", R=R, orient=orient, s=s0, mans=mans, script=script, q_end=q_end, q_add=q_add), t)
         t.sample(dict(kind="hist", R=R, orient=orient, s=s0, mans=lists[0], script=[["prop", 0.0], ["iter"]], q_end=777.0))
     elif p["part"] == "kepler":
         shapes = list(SHAPES)[:5] if tier == "quick" else list(SHAPES)
